@@ -12,7 +12,7 @@ LEVEL = "exploration"
 BUDGET = {"quick": 150, "thorough": 900}
 RULE = ("Operation histories over a pool of 7 names (ASCII, non-ASCII, with a space, bytes-typed, an NFD/NFC pair, the empty string) and 6 simple definitions (replace also with a bare action from a parsed script as content) (incl. filters whose only condition is false / true): "
         "add / update (onto self, existing, new) / replace (content from getfilter, with and without new name and "
-        "description) / remove / enable / disable / move up|down, checked against a list model after every step. All "
+        "description) / remove / enable / disable / move up|down, checked against a list model after every step (names in order, enabled flags, is_filter_disabled, getfilter, the rendering, and filter_exists asked for every name of the pool, present or not). All "
         "histories up to length 3 (quick) / 4 (thorough) over an alphabet of 20 operations (two of them definitions the factory refuses) on 2 names are enumerated "
         "exhaustively; random histories of 1-25 operations follow (per-run operation mix). Non-trivial: the history contains "
         "a refused operation, a repeat (disable twice...) or a boundary move. Distinct = abstract states reached "
@@ -182,6 +182,15 @@ def check_state(st, op, before_text, rc, mc):
         return Failure(PROP, clause, "%s: names in order are %r, the list model has %r" % (label, names, model.names()), {})
     if len(set(names)) != len(names):
         return Failure(PROP, "C12.names", "%s: duplicate names %r" % (label, names), {})
+    # the public membership question, asked for every name of the pool (present or not), in its text form
+    for q in NAMES:
+        qs = q.decode("utf-8") if isinstance(q, bytes) else q
+        try:
+            ans = fs.filter_exists(qs)
+        except Exception as e:
+            return Failure(PROP, "C12.names", "%s: filter_exists(%r) raised %s: %s" % (label, qs, type(e).__name__, e), {})
+        if bool(ans) != (qs in names) or not isinstance(ans, bool):
+            return Failure(PROP, "C12.names", "%s: filter_exists(%r) answered %r, the names in the set are %r" % (label, qs, ans, names), {})
     try:
         text = str(fs)
         tops = E.top_filters(text)
